@@ -23,6 +23,10 @@ class ExtractError(Exception):
     pass
 
 
+import threading
+_TL = threading.local()        # per-thread opt-in cfg features (see class `features`); empty unless a unit asks for them
+
+
 # ----------------------------------------------------------------------------------------------
 # masking: same-length copy of the source with the *contents* of comments, string and char
 # literals blanked, so that brace matching and regexes never look inside them.
@@ -133,7 +137,7 @@ def eval_cfg(e):
         return all(vals) if m.group(1) == 'all' else any(vals)
     m = re.match(r'^feature\s*=\s*"([^"]+)"$', e)
     if m:
-        return m.group(1) in CFG['features']
+        return m.group(1) in CFG['features'] or m.group(1) in getattr(_TL, 'features', ())
     m = re.match(r'^(target_os|target_arch|target_env)\s*=\s*"([^"]+)"$', e)
     if m:
         return CFG[m.group(1)] == m.group(2)
@@ -580,15 +584,16 @@ class features:
     configuration, for one unit only (Unit.cfg_features); restored on exit, so no other unit changes behaviour."""
 
     def __init__(self, extra):
-        self.extra = set(extra or ())
+        self.extra = frozenset(extra or ())
 
     def __enter__(self):
-        self.saved = CFG['features']
-        CFG['features'] = set(self.saved) | self.extra
+        # thread-local (./check generates the normal and the canary file of a unit in two threads); CFG itself is never modified
+        self.saved = getattr(_TL, 'features', frozenset())
+        _TL.features = self.saved | self.extra
         return self
 
     def __exit__(self, *a):
-        CFG['features'] = self.saved
+        _TL.features = self.saved
         return False
 
 
@@ -708,3 +713,111 @@ def apply_splices(body, splices, fired, what):
 
 def sha(s):
     return hashlib.sha256(s.encode()).hexdigest()[:16]
+
+
+# ----------------------------------------------------------------------------------------------
+# R21..R23: opt-in per Fn (`fn.rules = ('R21', 'R22', 'R23')`), used by the units iobuffers / virtiofsw (C04, C17)
+
+def r21_for_ref_iter(text, fired):
+    """R21: `for P in &E {`  ->  `for P in E.iter() {`   (E a place path such as `self.buffers`).
+
+    Definition of `impl<'a, T> IntoIterator for &'a C<T>` for the std collections (Vec, VecDeque, slices): `into_iter(self)`
+    is `self.iter()` (std docs: "Creates an iterator from a value" - implemented as `self.iter()`); same items, same order.
+    Verus has a specification for `VecDeque::iter` / `slice::iter` but none for `<&C as IntoIterator>::into_iter`.
+    Nothing is dropped."""
+    while True:
+        msk = mask(text)
+        m = re.search(r'\bfor\s+(\w+)\s+in\s+&\s*((?:\w+\s*\.\s*)*\w+)\s*\{', msk)
+        if not m:
+            break
+        new = 'for %s in %s.iter() {' % (m.group(1), re.sub(r'\s+', '', text[m.start(2):m.end(2)]))
+        fired.append('R21 for %s in &%s -> for %s in %s.iter()' % (m.group(1), norm_ws(text[m.start(2):m.end(2)]), m.group(1), norm_ws(text[m.start(2):m.end(2)])))
+        text = text[:m.start()] + _pad(new, text[m.start():m.end()]) + text[m.end():]
+    return text
+
+
+def r22_iter_position(text, fired):
+    """R22: `let P = E.iter().position(|X| { BODY });`  ->
+            `let mut P: Option<usize> = None; let mut P_i: usize = 0;
+             while P_i < E.len() { let X = &E[P_i]; if { BODY } { P = Some(P_i); break; } P_i += 1; }`
+
+    Definition of `Iterator::position` (std docs: applies the closure to each element in turn, returns `Some(index)` of the
+    first element for which it returns true and stops there, `None` if there is none) over `E.iter()`, which yields `&E[0]`,
+    `&E[1]`, ... in index order.  BODY is the closure's block, textually unchanged: a closure that mutates a captured local
+    (which Verus rejects) becomes a plain loop body mutating that local at the same points, in the same order.
+    Nothing is dropped (position's overflow panic beyond usize::MAX elements cannot occur for an in-memory collection).
+    Any other shape of `.position(` (non-block closure, pattern parameter, not a `let`) raises ExtractError (exit 2)."""
+    while True:
+        msk = mask(text)
+        m0 = re.search(r'\.\s*position\s*\(', msk)
+        if not m0:
+            break
+        m = None
+        for mm in re.finditer(r'\blet\s+(\w+)\s*=\s*((?:\w+\s*\.\s*)*\w+)\s*\.\s*iter\s*\(\s*\)\s*\.\s*position\s*\(\s*\|\s*(\w+)\s*\|\s*\{', msk):
+            m = mm
+            break
+        if not m or not (m.start() < m0.start() < m.end()):
+            raise ExtractError('R22: unsupported shape of .position(..): %r' % norm_ws(text[max(0, m0.start() - 60):m0.end() + 20]))
+        ob = m.end() - 1
+        cb = match_close(msk, ob)
+        tail = re.match(r'\s*\)\s*;', msk[cb + 1:])
+        if not tail:
+            raise ExtractError('R22: .position(|x| {..}) is not the whole initialiser of a let')
+        e = cb + 1 + tail.end()
+        p, coll, x = m.group(1), re.sub(r'\s+', '', text[m.start(2):m.end(2)]), m.group(3)
+        head = 'let mut %s: Option<usize> = None; let mut %s_i: usize = 0; while %s_i < %s.len() { let %s = &%s[%s_i]; if ' % (p, p, p, coll, x, coll, p)
+        foot = ' { %s = Some(%s_i); break; } %s_i += 1; }' % (p, p, p)
+        fired.append('R22 let %s = %s.iter().position(|%s| {..}) -> index loop with break' % (p, coll, x))
+        text = text[:m.start()] + _pad(head, text[m.start():ob]) + text[ob:cb + 1] + _pad(foot, text[cb + 1:e]) + text[e:]
+    return text
+
+
+def r23_ghost_token_sig(sig, fired, param):
+    """R23, signature part: the ghost parameter `param` (e.g. `Tracked(dm): Tracked<&mut DirtyLog>`) is appended to the
+    parameter list.  Ghost/tracked parameters are erased by Verus before compilation: no run-time meaning."""
+    msk = mask(sig)
+    m = re.search(r'\bfn\s+\w+\s*', msk)
+    if not m:
+        raise ExtractError('R23: no fn in signature')
+    k = m.end()
+    if msk[k] == '<':
+        d = 0
+        while True:
+            if msk[k] == '<':
+                d += 1
+            elif msk[k] == '>' and msk[k - 1] != '-':
+                d -= 1
+                if d == 0:
+                    break
+            k += 1
+        k += 1
+        while msk[k] in ' \t\n':
+            k += 1
+    if msk[k] != '(':
+        raise ExtractError('R23: parameter list not found in %r' % norm_ws(sig)[:80])
+    cb = match_close(msk, k)
+    j = cb
+    while msk[j - 1] in ' \t\n':
+        j -= 1
+    sep = '' if msk[j - 1] == '(' else (' ' if msk[j - 1] == ',' else ', ')
+    fired.append('R23 ghost parameter appended: %s' % param)
+    return sig[:j] + sep + param + sig[j:]
+
+
+def r23_ghost_token_calls(text, fired, callees, arg):
+    """R23, body part: every method call `.NAME(ARGS)` with NAME in `callees` gets the ghost argument `arg` appended
+    (`.NAME(ARGS, Tracked(dm))`).  The callees are exactly the functions whose model / extracted signature carries the ghost
+    parameter (R23 signature part), so the token is threaded from the entry point down to the bitmap call.  Erased by Verus."""
+    msk = mask(text)
+    hits = list(re.finditer(r'\.\s*(%s)\s*\(' % '|'.join(re.escape(c) for c in callees), msk))
+    for m in reversed(hits):
+        ob = m.end() - 1
+        cb = match_close(msk, ob)
+        j = cb
+        while msk[j - 1] in ' \t\n':
+            j -= 1
+        sep = '' if j - 1 == ob else (' ' if msk[j - 1] == ',' else ', ')
+        text = text[:j] + sep + arg + text[j:]
+    if hits:
+        fired.append('R23 ghost argument %s appended to %d call(s): %s' % (arg, len(hits), ', '.join(sorted(set(m.group(1) for m in hits)))))
+    return text
